@@ -547,13 +547,13 @@ func (k *scoreKit) compareScore(rule string, fn *types.Func, ref []refLeaf) (hit
 						site := k.e.P.Pos(x.Pos)
 						holder := k.holderOf(x, sf)
 						if role, ok := roles[opk]; ok {
-							hk := holder + "|" + role
+							hk := role
 							if !seenHit[hk] {
 								seenHit[hk] = true
 								hits = append(hits, kfHit{fn: holder, role: role, pos: site})
 							}
 						} else {
-							c.Fail("rounding-point", fmt.Sprintf("func=%s helper=%s operand=%s", holder, round2.Name(), clip(strip2(x.Args[0]).Pretty())), site, "a sub-score is rounded before use at a point where the specification does not round")
+							c.Fail("rounding-point", fmt.Sprintf("helper=%s operand=%s", round2.Name(), clip(strip2(x.Args[0]).Pretty())), site, "a sub-score is rounded (in "+holder+") before use at a point where the specification does not round")
 							all = false
 						}
 					}
